@@ -75,9 +75,8 @@ def run(chk, prog):
             v = ctx.origins.of_operand(t.args[2])
             chk.require(all(o.kind == "param" and o.key[1] == "keyid" for o in k) and all(o.kind == "param" and o.key[1] == "key" for o in v)
                         and bool(k) and bool(v), "R2", f, "inserts-checked-pair", "the pair inserted is not (keyid, key)", ctx.site(bb))
-            for nb, nt in ctx.calls("core::option::Option::is_none"):
-                if only_calls(ctx.origins.of_operand(nt.args[0]), HINSERT):
-                    N.extend(ctx.tracker.track(nt.dest.local, is_bool=True).pos_edges(0))
+            # "no previous entry": the None outcome of insert(..) (through is_none()/is_some()/match)
+            N.extend(ctx.track_call(bb).neg_edges(0))
         p3 = cfg.witness_path(okb, N)
         chk.require(bool(N) and p3 is None, "R2", f, "ok-needs-no-duplicate",
                     "an entry is accepted although the identifier was already present (no `insert(..).is_none()` edge)",
